@@ -308,6 +308,9 @@ def load_results():
             r.setdefault("rechecks", []).append(k)
             if any(x["exit"] == 1 for x in k["checks"].values()) and r.get("verdict") in ("survived", "inconclusive", "killed-after-strengthening"):
                 r["verdict"] = "killed-after-strengthening"
+            elif k.get("supersedes") and r.get("verdict") == "killed" and all(x["exit"] == 0 for x in k["checks"].values()):
+                # a kill recorded while the harness itself was broken, re-run afterwards (recheck --supersede)
+                r["verdict"] = "survived"
     return done
 
 
@@ -420,7 +423,10 @@ def cmd_recheck(args):
                 restore(d, c)
             print(n, c["file"], c["line"], c["desc"], {p: x["exit"] for p, x in res.items()}, flush=True)
             with open(RECHK, "a") as fo:
-                fo.write(json.dumps(dict(id=n, tier=tier, at=time.strftime("%Y-%m-%dT%H:%M:%S"), checks=res)) + "\n")
+                rec = dict(id=n, tier=tier, at=time.strftime("%Y-%m-%dT%H:%M:%S"), checks=res)
+                if "--supersede" in args:
+                    rec["supersedes"] = True
+                fo.write(json.dumps(rec) + "\n")
     finally:
         shutil.rmtree(d, ignore_errors=True)
         clean_alt(d)
